@@ -140,7 +140,7 @@ func c14Families(tier string) []explore.Family {
 	}
 	nCfg := 64
 	G, A, B, M := len(graphs), len(c14Args), len(c14Bodies), len(mains)
-	return []explore.Family{c14ChangeFamily(), c14TwoRootsFamily(), c14ChainFamily(), c14NamesFamily(), {Name: "include-configurations", Count: int64(nCfg * G * A * B * M * 2), Run: func(i int64, r *explore.Rec) {
+	return []explore.Family{c14ChangeFamily(), c14TwoRootsFamily(), c14ChainFamily(), c14NamesFamily(), c14ScopeFamily(), {Name: "include-configurations", Count: int64(nCfg * G * A * B * M * 2), Run: func(i int64, r *explore.Rec) {
 		rx := radix{i}
 		noPath := rx.next(2) == 1
 		mi, bi, ai, gi, cfg := rx.next(M), rx.next(B), rx.next(A), rx.next(G), rx.next(nCfg)
@@ -498,6 +498,84 @@ func c14NamesFamily() explore.Family {
 			case !has[k] && o.Err == nil:
 				r.Violation("N4:names:missing-name-rendered", desc, "a SourceError: no file and no cached source of that name", o.String())
 			}
+		}
+	}}
+}
+
+// c14ScopeFamily: what the variables of the includer look like after an include cannot depend on WHERE in the
+// included file a binding tag sits (at the top, in the first branch of an if, in an else / elsif / when clause,
+// nested two clauses deep, in a loop body): the file is rendered the same way in all of them. The reference is the
+// same file with the tag at its top level; readers: the includer, a later include, a file that itself includes,
+// the next iteration of a loop around the include, the text captured around it.
+func c14ScopeFamily() explore.Family {
+	places := []string{"X", "{% if true %}X{% endif %}", "{% if false %}{% else %}X{% endif %}", "{% if false %}{% elsif true %}X{% endif %}",
+		"{% case 1 %}{% when 1 %}X{% endcase %}", "{% case 1 %}{% when 2 %}{% else %}X{% endcase %}", "{% unless true %}{% else %}X{% endunless %}",
+		"{% for q in (1..1) %}X{% endfor %}", "{% if false %}{% elsif false %}{% else %}{% case 1 %}{% when 1 %}X{% endcase %}{% endif %}",
+		"{% case i %}{% when 2 %}X{% endcase %}"}
+	binders := []string{"{% assign y = 'inc' %}", "{% capture y %}inc{% endcapture %}", "{% assign y = y | append: '+' %}", "{% for y in (7..7) %}{% endfor %}", "{% assign y = 'inc' %}{{ y }}"}
+	mains := []string{
+		"{% assign y = 'main' %}{% include 'p.inc' %}[{{ y }}]",
+		"{% include 'p.inc' %}[{{ y }}]",
+		"{% assign y = 'main' %}{% include 'p.inc' %}{% include 'show.inc' %}",
+		"{% for i in (1..3) %}{% include 'p.inc' %}{{ y }};{% endfor %}{{ y }}",
+		"{% capture c %}{% include 'p.inc' %}{% endcapture %}{{ y }}|{{ c }}",
+		"{% assign y = 'main' %}{% include 'outer.inc' %}{{ y }}",
+		"{% if true %}{% include 'p.inc' %}{% endif %}{% include 'outer.inc' %}{{ y }}",
+	}
+	return explore.Family{Name: "bindings-made-anywhere-in-the-included-file", Count: int64(len(places) * len(binders) * len(mains) * 2), Run: func(i int64, r *explore.Rec) {
+		rx := radix{i}
+		cached, pi, bi, mi := rx.next(2) == 1, rx.next(len(places)), rx.next(len(binders)), rx.next(len(mains))
+		if pi == 0 {
+			return // the reference itself
+		}
+		dir := filepath.Join(c14.root, "scope")
+		render := func(place string) Outcome {
+			os.RemoveAll(dir)
+			os.MkdirAll(dir, 0o755)
+			eng := liquid.NewEngine()
+			put := func(name, content string) {
+				full := filepath.Join(dir, name)
+				if cached {
+					if _, err := eng.ParseTemplateAndCache([]byte(content), full, 1); err != nil {
+						panic(explore.BaselineFailure{Msg: err.Error()})
+					}
+					return
+				}
+				if err := os.WriteFile(full, []byte(content), 0o644); err != nil {
+					panic(err)
+				}
+			}
+			put("p.inc", "<"+strings.Replace(place, "X", binders[bi], 1)+">")
+			put("show.inc", "({{ y }})")
+			put("outer.inc", "{% include 'p.inc' %}{% include 'show.inc' %}")
+			var o Outcome
+			o.Panic = explore.Safe(func() {
+				tpl, err := eng.ParseTemplateLocation([]byte(mains[mi]), filepath.Join(dir, "main.html"), 1)
+				if err != nil {
+					o.Err = err
+					return
+				}
+				out, rerr := tpl.Render(map[string]any{})
+				o.Out, o.Err = string(out), rerr
+			})
+			return o
+		}
+		ref := places[0]
+		if strings.Contains(places[pi], "case i") {
+			// taken in one iteration only: compare with the same clause around a top-level-like if
+			ref = "{% if i == 2 %}X{% endif %}"
+		}
+		r.Eval()
+		r.Transition()
+		want, got := render(ref), render(places[pi])
+		r.Class(fmt.Sprintf("scope/%d/%d/%s", bi, mi, got.Class()))
+		r.State(fmt.Sprintf("scope:main%d", mi))
+		if want.Panic != nil || want.Err != nil {
+			panic(explore.BaselineFailure{Msg: "harness: reference placement fails: " + want.String()})
+		}
+		if got.String() != want.String() {
+			r.Violation("N3:binding-place-in-included-file-matters", map[string]any{"main": mains[mi], "p.inc": "<" + strings.Replace(places[pi], "X", binders[bi], 1) + ">", "show.inc": "({{ y }})", "outer.inc": "{% include 'p.inc' %}{% include 'show.inc' %}", "cached": cached},
+				want.String()+" (as with the tag at the top level of p.inc)", got.String())
 		}
 	}}
 }
